@@ -1,9 +1,9 @@
 (* C06 — truncated dumps: parsing terminates and reports a prefix of the full result.
    Model: theories/Container.v; tie: correspondence of tools/props/C06.py on EVERY truncation offset of generated
    version-2 and version-3 dumps (through a counting reader with a read budget and a watchdog). *)
-From Coq Require Import NArith Arith List Bool.
+From Coq Require Import ZArith NArith Arith List Bool.
 From Kd Require Import theories.Base theories.Kevent gen.GenKevent theories.Container theories.ContainerV2
-  theories.ContainerV3 theories.Pairing theories.PairingProofs.
+  theories.ContainerV3 theories.Pairing theories.PairingProofs theories.Cli.
 Import ListNotations.
 Open Scope N_scope.
 
@@ -37,6 +37,17 @@ Theorem c06_filter_incremental : forall A (f : A -> bool) a b, filter f (a ++ b)
 Proof. intros. apply filter_app. Qed.
 Theorem c06_limit : forall A B (g : A -> B) (l : list A) c, firstn c (map g l) = map g (firstn c l).
 Proof. intros. apply firstn_map. Qed.
+
+(* 4. the command line's --count (print_with_count: print until the running index equals the count; Python ints, the
+      default -1 is never reached): the output is the first `count` lines, a prefix of the unlimited output, so limiting
+      the count never changes the lines that are printed; and printing consumes only a prefix of the generator *)
+Theorem c06_count : forall A (count : Z) (l : list A),
+  pwc count 0 l = if (count <? 0)%Z then l else firstn (Z.to_nat count) l.
+Proof. intros. apply pwc_spec. Qed.
+Theorem c06_count_prefix : forall A (count : Z) (l : list A), exists rest, l = pwc count 0 l ++ rest.
+Proof. intros. apply pwc_prefix. Qed.
+Theorem c06_count_incremental : forall A (count : Z) (a b : list A), exists k, pwc count 0 (a ++ b) = pwc count 0 a ++ firstn k b.
+Proof. intros. apply pwc_app. Qed.
 
 Example c06_nontrivial :
   let body := enc_v2_body (zeros 12) (zeros 256) 1 1 [] 3 [repeat 5 64; repeat 6 64] in
